@@ -137,6 +137,44 @@ def run_config(prog, cfg):
                 r.bad(f, key, "assuming the inner decoder returned %s, the return at line %s is reached without freeing the partially decoded "
                               "inner value: it leaks, or is decoded over on the next attempt" % (v, re.get("line")), de["line"],
                       witness={"path": guards.path_lines(f, list(path))})
+    # (7) the holder is reset before the inner decoder runs: a holder that still carries the alternative of an earlier
+    # (failed, starved or successful) attempt would be decoded over: its context and buffers belong to another type
+    for name in present:
+        f = prog.func(name)
+        inner = [(b, i, e) for b, i, e in f.calls() if (e.get("slot") in ("ber_decoder", "xer_decoder", "uper_decoder", "oer_decoder"))
+                 or e.get("callee") in ("uper_open_type_get", "oer_open_type_get")]
+        resets = {}
+        for b, i, e in f.calls():
+            if e.get("callee") == "CHOICE_variant_set_presence" and len(e.get("args", [])) == 3 and const_of(e["args"][2].get("tree")) == 0:
+                resets.setdefault(b.id, i)
+        null_edges = set()
+        for bb in f.blocks.values():
+            if bb.term and "cond" in bb.term and len(bb.succ) >= 2:
+                ct = strip_casts(bb.term["cond"]["tree"])
+                if isinstance(ct, list) and ct and ((ct[0] == "un" and ct[1] == "*") or (ct[0] == "bin" and ct[1] == "!=" and const_of(ct[3]) == 0)):
+                    if any(n[0] == "var" and n[1].split("@")[0] == "memb_ptr2" for n in walk(ct)) and bb.succ[1] is not None:
+                        null_edges.add((bb.id, bb.succ[1]))
+        for db, di, de in inner:
+            key = "reset-before:%s" % (de.get("callee") or "->" + de["slot"])
+            seen, st, hit = set(), [f.entry], False
+            while st:
+                x = st.pop()
+                if x in seen or x not in f.blocks:
+                    continue
+                seen.add(x)
+                if x in resets and not (x == db.id and resets[x] > di):
+                    continue
+                if x == db.id:
+                    hit = True
+                    break
+                for s_ in f.blocks[x].succs():
+                    if (x, s_) not in null_edges:
+                        st.append(s_)
+            if not hit:
+                r.ok(f, key, "every path to the inner decoder with a non-NULL holder passes CHOICE_variant_set_presence(.., 0)", de["line"])
+            else:
+                r.bad(f, key, "the inner decoder is reached with a holder that was not reset (no CHOICE_variant_set_presence(.., 0) on the way): "
+                              "what an earlier attempt left in it is decoded over as if it were the newly selected type", de["line"])
     # (6) the only descriptor whose `specifics` may be read as CHOICE specifics is the open type's own (elm->type / td):
     # the descriptor selected from the object set is an arbitrary type (INTEGER and BOOLEAN have no specifics at all)
     for name in present:
@@ -260,7 +298,10 @@ def run(ctx):
     # comparison with that table's count (rule R04.2 evaluated over the open type code)
     from . import c04
     r5 = c04.r04_2(ctx.prog("S"), "default", rid="R18.5", only=lambda f: f.name.startswith("OPEN_TYPE_"), floor=4)
-    return run_config(ctx.prog("S"), "default") + [r18_2(ctx.prog("K")), r18_3(ctx.prog("S")), r4, r5]
+    # R18.6: the BER member loop gives the open type getter no more than the enclosing value has left (rule R05.7)
+    from . import c05
+    r6 = c05.r05_7(ctx.prog("S"), rid="R18.6", only="OPEN_TYPE", floor=1)
+    return run_config(ctx.prog("S"), "default") + [r18_2(ctx.prog("K")), r18_3(ctx.prog("S")), r4, r5, r6]
 
 
 def thorough(ctx):
